@@ -62,6 +62,14 @@ def diff_variants():
     add('no-hunks', ['Binary files a and b differ', '+x', '-y'], 0, 0)
     add('three', hunk_lines('D') + hunk_lines('I', 5, 5) +
         hunk_lines('CDC', 9, 9), 1, 2)
+    # text after the closing "@@" (git puts the enclosing function there):
+    # anything, including "@@" itself
+    for ci, ctx in enumerate(['@@', 'x @@ y', '[@@deriving show]',
+                              'IF @@ERROR <> 0', '@@ -9 +9 @@', '-- a',
+                              '+++ b', ' ', 'def f(self):  # @@', '@', '@@@']):
+        add('context:%d' % ci,
+            ['@@ -1,2 +1,2 @@ ' + ctx, ' c', '-a', '+b',
+             '@@ -7 +7,2 @@ ' + ctx, '-d', '+e', '+f'], 3, 2)
     add('zero-sides', ['@@ -0,0 +1,2 @@', '+a', '+b', '@@ -5,2 +6,0 @@',
                        '-c', '-d'], 2, 2)
     add('omitted-counts', ['@@ -1 +1 @@', '-a', '+b'], 1, 1)
